@@ -75,6 +75,14 @@ def find_chain(fn, min_arms=3):
                 arms.append((c[1], c[2], blk[j].body))
                 j += 1
             else_body = blk[j:]
+            # the last arm may be written as the negated guard: `if x != C: <default, leaves>` followed by the body of arm C
+            if j < len(blk) and isinstance(blk[j], ast.If) and not blk[j].orelse and isinstance(blk[j].body[-1], (ast.Return, ast.Raise)) \
+                    and isinstance(blk[j].test, ast.Compare) and len(blk[j].test.ops) == 1 and isinstance(blk[j].test.ops[0], ast.NotEq):
+                eqt = ast.Compare(left=blk[j].test.left, ops=[ast.Eq()], comparators=blk[j].test.comparators)
+                c = _cond(eqt)
+                if c is not None and (scr is None or c[0] == scr) and blk[j + 1:]:
+                    arms = arms + [(c[1], c[2], blk[j + 1:])]
+                    else_body = blk[j].body
             if arms and len(arms) + (1 if else_body else 0) >= min_arms:
                 return scr, arms, else_body
     return None
